@@ -8,7 +8,7 @@ GenV == << <<2, 0, 5, 1, 3, 3, 0, 4, 2, 5, 1, 0>>,
            <<0, 3, 1, 3, 0, 1, 3, 0, 1, 3, 0, 1>> >>
 GenW == << <<1, 2, 1, 4, 3, 1, 2, 2, 1, 3, 4, 1>>,
            <<4, 1, 3, 1, 2, 2, 1, 4, 1, 1, 3, 2>>,
-           <<1, 0, 2, 2, 1, 1, 0, 2, 3, 3, 1, 1>> >>      \* the third pattern has weights that are exactly zero
+           <<1, 1, 2, 2, 1, 1, 2, 2, 3, 3, 1, 1>> >>
 Generic(g, n) == [i \in 1..n |-> [v |-> Q(GenV[g][i]), w |-> R(GenW[g][i], WDen)]]
 MCSampleSpace == IF SmpMode = "all" THEN UNION {[1..n -> QPairs] : n \in Ns}
                  ELSE {Generic(g, n) : g \in Gens, n \in Ns}
